@@ -278,6 +278,40 @@ def run(ctx):
                     viol("%s|lost-after-flush|%s" % (ext, mode), ".%s: %s then the process was %s: the file loads as %s %s, written and flushed: %s" % (
                         ext, [tok(o) for o in ops], "killed (SIGKILL)" if mode == "kill" else "ended by os._exit", ids, err or "", want),
                          dict(ext=ext, ops=[tok(o) for o in ops], crash=mode))
+    # ---- (4) kill experiments in an append session: a first session writes and closes; a second opens the file with mode='a',
+    # writes, flushes and is killed: everything flushed in both sessions must be there
+    for ext in ("h5",):
+        for mode in ("exit", "kill"):
+            for _ in range(ctx.n(3, 10)):
+                first = rng.randrange(1, 4)
+                more = [rng.randrange(1, 3) for _i in range(rng.randrange(1, 4))]
+                path = os.path.join(ctx.scratch, "a." + ext)
+                clean(path)
+                f = md.open(path, "w")
+                do_write(ext, f, src, list(range(first)), 12, True, True)
+                f.close()
+
+                def session():
+                    g = md.open(path, "a")
+                    nxt = first
+                    for sz in more:
+                        do_write(ext, g, src, list(range(nxt, nxt + sz)), 12, True, True); nxt += sz
+                    g.flush()
+                    if mode == "kill":
+                        os.kill(os.getpid(), signal.SIGKILL)
+                    os._exit(0)
+                isolated(session, timeout=60)
+                want = list(range(first + sum(more)))
+                ctx.case(dict(ext=ext, crash=mode, session="append", first=first, appended=more), (ext, mode, "append", first, tuple(more)))
+                ctx.count("append-session kill experiments:" + ext)
+                try:
+                    t = load(md, ext, path, top)
+                    ids, err = tf.frame_ids(t.xyz, 1.0), None
+                except Exception as e:  # noqa: BLE001
+                    ids, err = None, "%s: %s" % (type(e).__name__, str(e)[:120])
+                if err or ids != want:
+                    viol("%s|lost-after-flush|append|%s" % (ext, mode), ".%s: %d frames written and closed, then opened with mode='a', %s frames appended and flushed, then the process was %s: the file loads as %s %s" % (
+                        ext, first, more, "killed (SIGKILL)" if mode == "kill" else "ended by os._exit", ids, err or ""), dict(ext=ext, first=first, appended=more, crash=mode))
     for key, (what, rp) in seen.items():
         ctx.violation(key, what, rp)
 
